@@ -54,6 +54,7 @@ var perts = []pert{
 	{"sealed-sname", nil}, {"sealed-srealm", nil}, {"ticket-realm", nil},
 	{"caddr-added", nil}, {"caddr-dropped", nil},
 	{"authtime", []int64{-301 * sec, 301 * sec, -300 * sec, 300 * sec, -299 * sec, 299 * sec, -3600 * sec, 86400 * sec}},
+	{"authtime-year", []int64{9999, 2400, 2293, 1970, 1700}},
 	{"other-key", nil},
 	{"other-usage", []int64{3, 8, 9, 2}},
 	{"enc-tag", []int64{25, 26, 3}},
@@ -218,7 +219,8 @@ func Gen(caseID, tier string) (json.RawMessage, error) {
 				// two changes to one field can cancel (addresses added and dropped; a ciphertext
 				// extended by one byte and cut by one byte)
 				dup = dup || q.Kind == s.p.Kind || (strings.HasPrefix(q.Kind, "caddr") && strings.HasPrefix(s.p.Kind, "caddr")) ||
-					(strings.HasPrefix(q.Kind, "enc-") && strings.HasPrefix(s.p.Kind, "enc-"))
+					(strings.HasPrefix(q.Kind, "enc-") && strings.HasPrefix(s.p.Kind, "enc-")) ||
+					(strings.HasPrefix(q.Kind, "authtime") && strings.HasPrefix(s.p.Kind, "authtime"))
 			}
 			if dup {
 				continue
